@@ -213,6 +213,10 @@ AffectedAdmitted == (pc = "loop" /\ t = T0) =>
     \A iv \in Iv : \A cols \in AffectedCode(S[iv], pen.ca, pen.cb) : ColsAdmit(S[iv], pen.ca, pen.cb, P, cols)
 
 (* --------------------------------- emission ---------------------------- *)
+\* all non-empty sequences of distinct components
+RECURSIVE SeqsOver(_)
+SeqsOver(T) == {<<>>} \cup UNION {{<<j>> \o q : q \in SeqsOver(T \ {j})} : j \in T}
+AllColSeqs == SeqsOver(Cmp) \ {<<>>}
 SeqOfIv(A) == SortedSeq({100 * a[1] + a[2] : a \in A})
 CaseRecord ==
     LET f    == Ref
@@ -225,6 +229,10 @@ CaseRecord ==
      scores |-> [T \in 1..N |-> opt[T]],
      optsets |-> {SeqOfIv(A) : A \in {B \in vs : Value(S, pen, P, B) = best}},
      evlog |-> evlog,
+     \* C16: per interval the column lists admitted by the property layer under (ca, cb)
+     admcols |-> IF P = 1 THEN <<>>
+                 ELSE [s \in 0..(N - 1) |-> [e \in 1..N |->
+                        IF s < e THEN {c \in AllColSeqs : ColsAdmit(S[<<s, e>>], pen.ca, pen.cb, P, c)} ELSE {}]],
      coll |-> SeqOfIv(coll), pts |-> SeqOfIv(pts)]
 EmitDone == (Emit /\ pc = "done") => PrintT(<<"CASE", ToJson(CaseRecord)>>)
 =============================================================================
